@@ -19,6 +19,12 @@ CLAIMED = {
    note='chunk_size=int(round(600*sample_rate)) and the mtscomp chunk table/thread pool are outside the model (taken as inputs).',
    tech='Lean 4 theorems by loop invariant/induction over a hand-written model + differential correspondence against /repo', ref='§5 C16'),
 }
+CLAIMED['C15'] = dict(
+   text='Theorems (unbounded number of spikes, any labelling): the shift loop with shrinking mask and early exit increments entry (i,j,k) exactly once per pair a<b with a in cluster i, b in cluster j, floor((t_b-t_a)/bin)=k<=half; '
+        'list-level result in the caller\'s cluster order (any order, empty ids) equals the pair-count array; symmetrised array has 2*half+1 bins, reproduces positive lags, takes the max at the centre, C[i,j,k]=C[j,i,-k]; firing-rate normaliser is the outer product of counts. '
+        'Correspondence: exhaustive sorted trains on a small grid x labelings x id orders x (bin, half) x symmetrize, random long trains, against real correlograms()/firing_rate().',
+   note='Float-to-sample conversion and the final float multiplication of firing_rate are performed by the real code and only replicated (not modelled) by the harness on inputs it verifies to be exact.',
+   tech='Lean 4 theorems (loop invariant, reindexing of sums) over a hand-written model + differential correspondence against /repo', ref='§5 C15')
 REASONS = {}
 
 checks = []
